@@ -48,8 +48,8 @@ Record stream := { st_id : N; st_d : sdesc; st_ph : phase; st_nw : N; st_nf : N 
 
 Record bst := {
   bkey : option key;           (* Broker.key; None = "" *)
-  cin : option N;              (* cancelIn <> nil: id of the stream *)
-  cout : option N;
+  cin : option (N * sdesc);    (* cancelIn <> nil: the stream (id and descriptor) that owns it *)
+  cout : option (N * sdesc);
   nomore : bool;
   ich_closed : bool;
   queue : list bytes;          (* lines in ich *)
@@ -92,9 +92,9 @@ Definition upd (s : bst) (x : stream) : bst :=
      cancelled := cancelled s |}.
 Definition set_phase (x : stream) (p : phase) : stream :=
   {| st_id := st_id x; st_d := st_d x; st_ph := p; st_nw := st_nw x; st_nf := st_nf x |}.
-Definition slot (s : bst) (d : dir) : option N := match d with DIn => cin s | DOut => cout s end.
+Definition slot (s : bst) (d : dir) : option (N * sdesc) := match d with DIn => cin s | DOut => cout s end.
 Definition other (d : dir) : dir := match d with DIn => DOut | DOut => DIn end.
-Definition set_slot (s : bst) (d : dir) (v : option N) : bst :=
+Definition set_slot (s : bst) (d : dir) (v : option (N * sdesc)) : bst :=
   {| bkey := bkey s; cin := (match d with DIn => v | DOut => cin s end);
      cout := (match d with DOut => v | DIn => cout s end);
      nomore := nomore s; ich_closed := ich_closed s; queue := queue s;
@@ -207,7 +207,7 @@ Definition admission (s : bst) (x : stream) : bst * sobs :=
   else if (match bkey s with Some k' => negb (key_eqb k k') | None => false end) then refuse s x LBadKey
   else
     let both := match slot s (other d) with Some _ => true | None => false end in
-    let s1 := set_key (set_slot (upd s (set_phase x PAttached)) d (Some (st_id x))) (Some k) in
+    let s1 := set_key (set_slot (upd s (set_phase x PAttached)) d (Some (st_id x, st_d x))) (Some k) in
     let o := {| o_och := (if is_bidir k then [] else [ONote NConnected (st_id x)]) ++
                          (if both then [ONote NReady (sd_addr (st_d x))] else []);
                 o_log := [Log LNew (st_id x)];
@@ -223,7 +223,7 @@ Definition release (s : bst) (x : stream) : bst * sobs :=
   let d := sd_dir (st_d x) in
   let s1 := set_slot (set_key (upd s (set_phase x PDone)) None) d None in
   match slot s1 (other d) with
-  | Some p =>
+  | Some (p, _) =>
       (* go f(): the peer's context is cancelled; if its proxy still runs it returns nil *)
       let s2 := {| bkey := bkey s1; cin := cin s1; cout := cout s1; nomore := nomore s1;
                    ich_closed := ich_closed s1; queue := queue s1; streams := streams s1;
@@ -290,9 +290,17 @@ Definition step (s : bst) (o : op) : bst * sobs :=
   let '(s', ob) :=
     match o with
     | OAdmit id d =>
-        let s1 := add_stream s id d PParked in
-        match get s1 id with Some x => admission s1 x | None => (s1, no_obs) end
-    | OIoReq si so di do_ => (add_stream (add_stream s si di PParked) so do_ PParked, no_obs)
+        match get s id with
+        | Some _ => (s, no_obs)                  (* identities are never reused *)
+        | None =>
+            let s1 := add_stream s id d PParked in
+            match get s1 id with Some x => admission s1 x | None => (s1, no_obs) end
+        end
+    | OIoReq si so di do_ =>
+        match get s si, get s so, si =? so with
+        | None, None, false => (add_stream (add_stream s si di PParked) so do_ PParked, no_obs)
+        | _, _, _ => (s, no_obs)
+        end
     | OGo id =>
         match get s id with
         | Some x => match st_ph x with PParked => admission s x | _ => (s, no_obs) end
@@ -301,11 +309,11 @@ Definition step (s : bst) (o : op) : bst * sobs :=
     | OLine l =>
         if ich_closed s then (s, no_obs) else
         let s1 := set_queue s (queue s ++ [l]) in
-        match cin s1 with Some id => pump_in s1 id | None => (s1, no_obs) end
+        match cin s1 with Some (id, _) => pump_in s1 id | None => (s1, no_obs) end
     | OCloseIch =>
         let s1 := {| bkey := bkey s; cin := cin s; cout := cout s; nomore := nomore s; ich_closed := true;
                      queue := queue s; streams := streams s; cancelled := cancelled s |} in
-        match cin s1 with Some id => pump_in s1 id | None => (s1, no_obs) end
+        match cin s1 with Some (id, _) => pump_in s1 id | None => (s1, no_obs) end
     | OData id data e =>
         match get s id with
         | Some x =>
